@@ -672,14 +672,14 @@ package erpc
 //@ ghost global callSweeps int
 //@ iface github.com/henrylee2cn/goutil.Map.Range in erpc.(*session).readDisconnected
 //@   flags libframe
-//@   modifies allof(type(callCmd)), waitgroups, channels, ghost.callSweeps
+//@   modifies allof(type(callCmd)), waitgroups, channels, mapviews, ghost.callSweeps
 //@   ghostset ghost.callSweeps = old(ghost.callSweeps) + 1
 //@ func (*session).readDisconnected
 //@   property C02
 //@   flags libframe frame-unchecked
 //@   requires @C02 sessShape(s) && s.callCmdMap != nil && s.peer.sessHub != nil
 //@   requires?[session-lock-free] @C02 !held(addr(s.lock))
-//@   modifies allof(type(session)), allof(type(socket.socket)), allof(type(callCmd)), lockset, waitgroups, channels, ghost.callSweeps, ghost.disconnectRuns
+//@   modifies allof(type(session)), allof(type(socket.socket)), allof(type(callCmd)), lockset, waitgroups, channels, mapviews, ghost.callSweeps, ghost.disconnectRuns
 //@   ghostset ghost.disconnectRuns = old(ghost.disconnectRuns) + 1
 //@   ensures[pending-calls-swept] @C02 old(s.status) != statusPassiveClosed && old(s.status) != statusActiveClosed && old(s.status) != statusPassiveClosing ==> ghost.callSweeps == old(ghost.callSweeps) + 1
 // the goroutine pool: a function it accepts runs exactly once, later, on another
@@ -728,7 +728,7 @@ package erpc
 //@   ensures[call-bound-only-for-replies] ctx.callCmd != nil ==> as(ctx.input, type(*socket.message)).mtype == TypeReply && !notAllowed(ctx.stat)
 //@   ensures[reply-lock-handed-over] ctx.callCmd != nil ==> held(addr(ctx.callCmd.mu)) && ctx.callCmd.#completions == 0 && ctx.callCmd.sess != nil && ctx.callCmd.output != nil && ctx.callCmd.inputMeta != nil
 
-//@ frameset handleRun(c *handlerCtx) = ctxRun(c), allof(type(callCmd)), ghost.writeAttempts, ghost.writesOK, ghost.lastWriteOK, ghost.callRuns, ghost.pushRuns, ghost.replyRuns, ghost.closeRequests, ghost.handleRuns
+//@ frameset handleRun(c *handlerCtx) = ctxRun(c), allof(type(callCmd)), mapviews, ghost.writeAttempts, ghost.writesOK, ghost.lastWriteOK, ghost.callRuns, ghost.pushRuns, ghost.replyRuns, ghost.closeRequests, ghost.handleRuns
 //@ func (*session).startReadAndHandle$2
 //@   property C03 C02
 //@   flags libframe
@@ -772,7 +772,7 @@ package erpc
 //@   flags libframe
 //@   requires[not-yet-completed] c.#completions == 0
 //@   requires c.sess != nil && c.output != nil
-//@   modifies c.#completions, waitgroups, c.doneChan.#chanClosed, c.callCmdChan.#chanSent
+//@   modifies c.#completions, waitgroups, c.doneChan.#chanClosed, c.callCmdChan.#chanSent, c.sess.callCmdMap.#gkeys
 //@   ghostset c.#completions = old(c.#completions) + 1
 //@   ensures[completed-once] c.#completions == 1
 //@   ensures[signalled] chanClosed(c.doneChan) && chanSent(c.callCmdChan) == old(chanSent(c.callCmdChan)) + 1
@@ -783,7 +783,7 @@ package erpc
 //@   flags libframe
 //@   requires[not-yet-completed] c.#completions == 0
 //@   requires c.sess != nil && c.output != nil && sentinelsIntact()
-//@   modifies c.#completions, c.stat, waitgroups, c.doneChan.#chanClosed, c.callCmdChan.#chanSent
+//@   modifies c.#completions, c.stat, waitgroups, c.doneChan.#chanClosed, c.callCmdChan.#chanSent, c.sess.callCmdMap.#gkeys
 //@   ghostset c.#completions = old(c.#completions) + 1
 //@   ensures[completed-once] c.#completions == 1
 //@   ensures[cancelled-status] statCode(c.stat) == CodeConnClosed
@@ -797,7 +797,7 @@ package erpc
 //@   flags libframe
 //@   params key v
 //@   requires istype(v, type(*callCmd)) && as(v, type(*callCmd)) != nil && sentinelsIntact()
-//@   modifies allof(type(callCmd)), lockset, waitgroups, channels
+//@   modifies allof(type(callCmd)), lockset, waitgroups, channels, mapviews
 //@   ensures[visited-call-completed] as(v, type(*callCmd)).#completions == 1
 //@   ensures[cancelled-unless-replied] as(v, type(*callCmd)).inputMeta == nil ==> !statOK(as(v, type(*callCmd)).stat)
 //@   ensures[locks-restored] sameLocks()
@@ -817,7 +817,7 @@ package erpc
 //@ func (*handlerCtx).handleReply
 //@   property C02 C04
 //@   flags recover-scope libframe
-//@   modifies ctxRun(c), allof(type(callCmd)), ghost.replyRuns, ghost.pendingReplyLock, channels
+//@   modifies ctxRun(c), allof(type(callCmd)), ghost.replyRuns, ghost.pendingReplyLock, channels, mapviews
 //@   requires ctxShape(c) && sessShape(c.sess) && sentinelsIntact()
 //@   requires[lock-handed-over] @C02 c.callCmd != nil ==> held(addr(c.callCmd.mu)) && c.callCmd.#completions == 0 && c.callCmd.sess != nil && c.callCmd.output != nil && c.callCmd.inputMeta != nil
 //@   ghostset ghost.replyRuns = old(ghost.replyRuns) + 1
